@@ -327,6 +327,13 @@ class IntroVisitor(ast.NodeVisitor):
         # _logger.debug(f"visit_call: call name is {n}")
         if n is not None:
             self._store_names.add(n)
+        # The arguments of a call are evaluated before the call itself: the calls that they contain are part of
+        # the context of this call (for example the run-time argument of dds.keep(path, f, g()) depends on g).
+        # Plain names and constants are left to the regular visit below.
+        all_args = list(node.args) + [kw.value for kw in node.keywords]
+        nested_args = [a for a in all_args if not isinstance(a, (ast.Name, ast.Constant))]
+        for a in nested_args:
+            self.visit(a)
         # This is a bit brute-force (not working for multi-line function calls)
         # but it should be good enough in practice for most cases.
         # TODO: refine it based of the nested parse tree?
@@ -354,7 +361,11 @@ class IntroVisitor(ast.NodeVisitor):
         # str is the underlying type of a DDSPath
         if fi_or_p is not None and isinstance(fi_or_p, str):
             self.load_paths.append(fi_or_p)
-        self.generic_visit(node)
+        # The rest of the call (the nested arguments have been visited already)
+        self.visit(node.func)
+        for a in all_args:
+            if not any(a is a0 for a0 in nested_args):
+                self.visit(a)
 
     def visit_Assign(self, node: ast.Assign) -> Any:
         targets = get_assign_targets(node)
